@@ -117,7 +117,7 @@ func lexSpec(src string) ([]tok, error) {
 		switch {
 		case c == ' ' || c == '\t':
 			i++
-		case unicode.IsLetter(rune(c)) || c == '_':
+		case unicode.IsLetter(rune(c)) || c == '_' || c == '$':
 			j := i
 			for j < n && (unicode.IsLetter(rune(src[j])) || unicode.IsDigit(rune(src[j])) || src[j] == '_' || src[j] == '$') {
 				j++
